@@ -4,7 +4,7 @@ Generator: a tree specification (entry directory, 0-2 search paths possibly spel
 working directory), packages of depth <= 3, every physical file declaring one uniquely named marker class (so
 the merged program tells exactly which files were loaded), single and wildcard imports, diamonds, cycles
 (self-import, wildcard into the own package), the same relative path present in several roots, bloch.* modules
-with a local shadow, wrong / missing / surplus package lines, 0/1/2 mains, non-.bloch files and a directory
+with a local shadow, packages whose first component merely starts with `bloch`, wrong / missing / surplus package lines, 0/1/2 mains, non-.bloch files and a directory
 named *.bloch inside wildcard directories.  Materialised under a per-case scratch dir.
 
 Oracle: ref_loader below, written from language-guide.md / semantics.md / the property statement.  Success
@@ -22,7 +22,8 @@ from hypothesis import strategies as st
 from ..common import Check, Failure, Scratch, Stats, hyp_search, run_proc, run_workers
 
 ROOTS = ["E", "S1", "S2", "W"]
-PKGS = [[], ["p"], ["q"], ["p", "q"], ["p", "r"], ["bloch", "util"], ["p", "q", "r"]]
+# "blochkit" only starts with "bloch": an ordinary package, resolved like p and q (seeded change C19-a4)
+PKGS = [[], ["p"], ["q"], ["p", "q"], ["p", "r"], ["bloch", "util"], ["p", "q", "r"], ["blochkit"], ["blochkit", "util"]]
 NAMES = ["A", "B", "C", "D", "Main"]
 
 
